@@ -54,10 +54,42 @@ class CurvEx(Extractor):
             return lambda *a, _n=attr: m.call(_n, a)
         return super().attr_of(value, attr, node, env)
 
+    symbolic_curl = False
+    continuum = False
+
+    def call_closure(self, clo, args, kwargs):
+        if self.symbolic_curl and getattr(clo, "name", None):
+            for suffix, sym in (("Rhat", "CURL_R"), ("Zhat", "CURL_Z"), ("zetahat", "CURL_zeta")):
+                if clo.name.endswith(suffix):
+                    return self.ctx.sym(sym)
+        return super().call_closure(clo, args, kwargs)
+
     def on_call(self, node, fname, args, kwargs, env):
         if fname in ("self.DDX", "self.DDY"):
+            if self.continuum:
+                return self.continuum_derivative(fname[5:], str(node.args[0].value), env)
             return self.ctx.call(fname[5:], self.ctx.sym("expr:" + str(node.args[0].value)))
         return common.equilibrium_call(self, node, fname, args, kwargs, env)
+
+    def continuum_derivative(self, which, text, env):
+        """the differential operator the difference stencil approximates, applied to a field
+        expression given as functions of (R, Z):  DDX -> grad(psi).grad / |grad psi|^2 (x = psi,
+        at fixed y on an orthogonal grid),  DDY -> hy * yhat.grad with yhat = (B_R, B_Z)/Bpxy"""
+        ctx = self.ctx
+        R, Z = ctx.sym("R"), ctx.sym("Z")
+        tree = ast.parse(re.sub(r"#(\w+)", r"self.\1", text), mode="eval")
+        val = self.expr(tree.body, env)
+        if not isinstance(val, Rat):
+            raise AlgError("field expression %r not representable" % text)
+        for a in val.all_atoms():
+            if a.name.startswith("self."):
+                raise AlgError("field %s in %r is not a function of (R,Z) here" % (a.name, text))
+        gR, gZ = val.diff("R"), val.diff("Z")
+        pR, pZ = common.psi_partial(ctx, 1, 0, R, Z), common.psi_partial(ctx, 0, 1, R, Z)
+        if which == "DDX":
+            return (gR * pR + gZ * pZ) / (pR * pR + pZ * pZ)
+        BR, BZ = self.model.call("Bp_R", (R, Z)), self.model.call("Bp_Z", (R, Z))
+        return env["self.hy"] * (BR * gR + BZ * gZ) / env["self.Bpxy"]
 
 
 def curvature_function(prog):
@@ -96,7 +128,9 @@ def run(rep, tier):
             for psi_decr in (False, True):
                 one_arm(prog, rep, f, fg1, option, orth, psi_decr)
     r5(prog, rep, f)
-    rep.undecided("agreement of the R-Z and x-y formulations to discretisation error")
+    r6(prog, rep, f, fg1)
+    r7(prog, rep, f, fg1)
+    rep.undecided("size of the discretisation error between the R-Z and x-y formulations; the z component of the x-y form (needs d(hy)/dx)")
     return __doc__
 
 
@@ -173,6 +207,117 @@ def one_arm(prog, rep, f, fg1, option, orth, psi_decr):
         b = env.get("self.bxcv" + nm)
         ok = isinstance(b, Rat) and (b - Bxy / 2 * c).is_zero()
         rep.ob("R4", "%s: bxcv%s == Bxy/2 * curl_bOverB_%s" % (label, nm, nm), ok, site, "", key="%s/bxcv%s" % (label, nm))
+
+
+def r6(prog, rep, f, fg1):
+    """grad y used for the y-component is the dual basis vector: perpendicular to e_x (the
+    radial displacement the beta method measures; grad psi when orthogonal) and grad y . e_y = 1"""
+    from . import c02
+    rep.rule("R6", "grad(y) of the R-Z formulation is dual to (e_x, e_y): grad(y).e_x == 0, grad(y).e_y == 1, for both signs of Bp")
+    for orth in (True, False):
+        for psi_decr in (False, True):
+            bsv = -1 if psi_decr else 1
+            label = "%s/bpsign=%+d" % ("orthogonal" if orth else "non-orthogonal", bsv)
+            ctx = Context()
+            common.declare_equilibrium(ctx)
+            common._models.clear()
+            env = common.eval_geometry1(prog, ctx, fg1, psi_decr, psi_decr)
+            seeds = {'curvature_type == "curl(b/B) with x-y derivatives"': False, 'curvature_type == "curl(b/B)"': True, "orthogonal": orth}
+            ex = CurvEx(ctx, f.module, prog, seeds, "spline")
+            ex.symbolic_curl = True
+            env["self.I"] = ctx.const(0)
+            env["self.hy"] = ctx.sym("self.hy")
+            R, Z = ctx.sym("R"), ctx.sym("Z")
+            pR, pZ = common.psi_partial(ctx, 1, 0, R, Z), common.psi_partial(ctx, 0, 1, R, Z)
+            dxR, dxZ = ctx.sym("dxR"), ctx.sym("dxZ")
+            if not orth:
+                c, sn, fb = c02.beta_expressions(prog, ctx, "centre")
+                # the beta method's f_R, f_Z point along grad psi (C04.R1): only their direction enters
+                sub_f = {"f_R": pR, "f_Z": pZ, "self.bpsign": bsv}
+                env["self.tanBeta"] = (sn / c).subs(sub_f)
+                env["self.cosBeta"] = c.subs(sub_f)
+            try:
+                ex.block(f.node.body, env)
+            except (PathRaises, AlgError) as e:
+                rep.ob("R6", "%s: arm extractable" % label, False, f.site(), str(e), key="dual/%s/extract" % label)
+                continue
+            cy = env.get("self.curl_bOverB_y")
+            if not isinstance(cy, Rat):
+                rep.ob("R6", "%s: curl_bOverB_y extractable" % label, False, f.site(), str(cy), key="dual/%s/extract" % label)
+                continue
+            Gy = (cy.diff("CURL_R"), cy.diff("CURL_Z"))
+            m = ex.model
+            BR, BZ = m.call("Bp_R", (R, Z)), m.call("Bp_Z", (R, Z))
+            Bp, hy = env["self.Bpxy"], env["self.hy"]
+            if orth:
+                perp = Gy[0] * pR + Gy[1] * pZ
+                what = "grad psi"
+            else:
+                perp = Gy[0] * dxR + Gy[1] * dxZ
+                what = "the radial displacement (e_x)"
+            rep.ob("R6", "%s: grad(y) . %s == 0" % (label, what), perp.is_zero(), f.site(), "residual " + perp.residual()[:200], key="dual/%s/perp" % label)
+            one = (Gy[0] * BR + Gy[1] * BZ) * hy / Bp - 1
+            rep.ob("R6", "%s: grad(y) . e_y == 1 (e_y = hy*(B_R,B_Z)/Bpxy)" % label, one.is_zero(), f.site(), "residual " + one.residual()[:200], key="dual/%s/unit" % label)
+
+
+def r7(prog, rep, f, fg1):
+    """the x-y formulation equals the R-Z formulation when its difference stencils are replaced
+    by the derivatives they approximate (x and y components; z needs d(hy)/dx, a grid quantity)"""
+    rep.rule("R7", "x-y formulation == R-Z formulation in the continuum limit of DDX/DDY (x and y components), for both signs of Bp")
+    for psi_decr in (False, True):
+        bsv = -1 if psi_decr else 1
+        vals = {}
+        ctx = Context()
+        common.declare_equilibrium(ctx)
+        common._models.clear()
+        for which in ("rz", "xy"):
+            env = common.eval_geometry1(prog, ctx, fg1, psi_decr, psi_decr)
+            env["self.I"] = ctx.const(0)
+            env["self.hy"] = ctx.sym("self.hy")
+            seeds = {'curvature_type == "curl(b/B) with x-y derivatives"': which == "xy", 'curvature_type == "curl(b/B)"': which == "rz", "orthogonal": True}
+            ex = CurvEx(ctx, f.module, prog, seeds, "spline")
+            ex.continuum = True
+            env_run = dict(env)
+            if which == "xy":
+                # only the x and y components are compared: stop before the z component (it differentiates hy)
+                for s in f.node.body:
+                    pass
+            try:
+                _run_until(ex, f.node.body, env_run, ("self.curl_bOverB_x", "self.curl_bOverB_y"))
+            except (PathRaises, AlgError) as e:
+                rep.ob("R7", "bpsign=%+d: %s formulation extractable" % (bsv, which), False, f.site(), str(e)[:200], key="xy-rz/%+d/%s/extract" % (bsv, which))
+                break
+            vals[which] = env_run
+        if len(vals) < 2:
+            continue
+        for comp in ("x", "y"):
+            a, b = vals["xy"].get("self.curl_bOverB_" + comp), vals["rz"].get("self.curl_bOverB_" + comp)
+            ok = isinstance(a, Rat) and isinstance(b, Rat) and (a - b).is_zero()
+            detail = ""
+            if isinstance(a, Rat) and isinstance(b, Rat) and not ok:
+                detail = "x-y form == -(R-Z form)" if (a + b).is_zero() else "difference " + (a - b).residual()[:160]
+            rep.ob("R7", "bpsign=%+d: curl_bOverB_%s of the x-y formulation == that of the R-Z formulation (continuum limit)" % (bsv, comp), ok, f.site(), detail, key="xy-rz/%+d/%s" % (bsv, comp))
+
+
+def _run_until(ex, stmts, env, names):
+    """run the curvature method body, stopping inside the selected arm as soon as all of
+    `names` are assigned (later statements may not be representable)"""
+    class _Done(Exception):
+        pass
+    orig = ex.stmt
+
+    def stmt(s, e):
+        orig(s, e)
+        if all(n in e and isinstance(e[n], Rat) for n in names) and isinstance(s, ast.Assign):
+            env.update(e)
+            raise _Done()
+    ex.stmt = stmt
+    try:
+        ex.block(stmts, env)
+    except _Done:
+        pass
+    finally:
+        ex.stmt = orig
 
 
 def r5(prog, rep, f):
